@@ -618,3 +618,51 @@ pub fn families_surface_constructors(prop: &str, doc: &Value) -> (Vec<Pair>, usi
 	}
 	(v, seen)
 }
+
+/// S7 (C10): a safe function of `Poisonable` that takes nothing but `&self` and
+/// whose result mentions the wrapped lockable `L` hands out the inner lock:
+/// locking that directly never reports the poison.
+pub fn families_surface_poisonable_bypass(prop: &str, doc: &Value) -> (Vec<Pair>, usize) {
+	fn mentions_l(t: &Value) -> bool {
+		match t {
+			Value::Object(m) => m.get("generic").and_then(|g| g.as_str()) == Some("L") || m.values().any(mentions_l),
+			Value::Array(a) => a.iter().any(mentions_l),
+			_ => false,
+		}
+	}
+	let mut v = Vec::new();
+	let mut seen = 0usize;
+	let region = |t: &str| format!("//<<\n{t}\n//>>");
+	for (owner, tr, ta, name, func) in functions_of(doc, &["Poisonable"]) {
+		seen += 1;
+		let inputs = func["sig"].get("inputs").and_then(|i| i.as_array()).cloned().unwrap_or_default();
+		if inputs.len() != 1 || is_self_ref(&inputs[0][1]) != Some(false) {
+			continue;
+		}
+		let output = func["sig"].get("output").cloned().unwrap_or(Value::Null);
+		if output.is_null() || output.get("raw_pointer").is_some() || !mentions_l(&output) {
+			continue;
+		}
+		let is_self = inputs[0].get(0).and_then(|n| n.as_str()) == Some("self");
+		for (lockname, ctor) in [("Mutex", "Mutex::new(1i32)"), ("RwLock", "RwLock::new(1i32)")] {
+			let call = match (&tr, is_self) {
+				(Some(t), _) if ["AsRef", "Borrow", "Deref"].contains(&t.as_str()) => {
+					let args = if ta > 0 { format!("<{}>", vec!["_"; ta].join(", ")) } else { String::new() };
+					format!("<_ as {t}{args}>::{name}(&s)")
+				}
+				(_, true) => format!("s.{name}()"),
+				(_, false) => format!("{owner}::{name}(&s)"),
+			};
+			let template = format!("{PRELUDE}use std::ops::Deref;\nuse std::borrow::Borrow;\npub fn probe() {{\n    let s = Poisonable::new({ctor});\n@@\n}}\n");
+			v.push(Pair {
+				prop: prop.into(),
+				family: "S7-surface-poisonable-hands-out-its-inner-lock".into(),
+				name: format!("{owner}::{name}{} over {lockname}", tr.as_ref().map(|t| format!(" ({t})")).unwrap_or_default()),
+				twin: template.replace("@@", &region("    let _p = s.is_poisoned();")),
+				offending: template.replace("@@", &region(&format!("    let _inner = {call};"))),
+				std_offending: None,
+			});
+		}
+	}
+	(v, seen)
+}
